@@ -2,10 +2,10 @@
 //! Online monitor with symbolic pair pieces (which left piece met which right piece) and with the
 //! real piece type IntOfLogPoly4.
 
-use crate::flat::*;
-use crate::gen::*;
-use crate::mon::*;
-use crate::probe::*;
+use ppv::flat::*;
+use ppv::gen::*;
+use ppv::mon::*;
+use ppv::probe::*;
 use piecewise_polynomial::*;
 use serde_json::json;
 
